@@ -14,6 +14,9 @@ def expand(ops):
         if o[0] == 'msg_nested':
             out.append(('msg', o[1], o[2]))
             out.append(('msg', o[1], o[2]))
+        elif o[0] == 'session_nested':
+            out.append(('session_set', o[1], o[2], o[3], o[4]))
+            out.append(('session_set', o[1], o[2], o[5], o[6]))
         else:
             out.append(o)
     return out
